@@ -4,5 +4,8 @@ CONSTANTS
   SibNames = {"integer", "s"}
   KeyNames = {"string"}
   ArgKinds = {"union", "opt", "arr", "map", "fun0"}
-  TemplateNames = {"id", "elem", "wrap", "mk", "val", "unopt", "call", "pair", "same", "swap"}
-INVARIANTS Closed IdLaw ElemWrap Emit
+  TemplateNames = {"id", "elem", "wrap", "mk", "val", "unopt", "call", "pair", "same", "swap", "optid", "optelem", "optval", "nest"}
+  Depth3From = {"arr"}
+  Depth3Cons = {"arr", "opt"}
+  SecondArgKinds = {"opt"}
+INVARIANTS Closed IdLaw ElemWrap OptLaw ExpectedWf Emit
